@@ -91,6 +91,72 @@ async fn leave() -> String {
     format!("full sanity={} left_seen={} delivered_after_leave={}", sanity, left_seen, delivered)
 }
 
+/// rejoin: two nodes; node 1 has a membership subscriber and the store; node 2 stops and comes back at once under the SAME id at
+/// a NEW address (a restart faster than failure detection); once node 1 has declared the old incarnation dead and membership is
+/// quiescent, the subscriber must hold node 2 at its new address and a Consistency::None write of node 1 must reach the new node 2.
+async fn rejoin() -> String {
+    let (a1, a2, a2new) = (free_addr(), free_addr(), free_addr());
+    let (Some(n1), Some(n2)) = (connect(1, a1, vec![a2.to_string()]).await, connect(2, a2, vec![a1.to_string()]).await) else {
+        return "full not-started".into();
+    };
+    if n1.wait_for_nodes([2], Duration::from_secs(30)).await.is_err() || n2.wait_for_nodes([1], Duration::from_secs(30)).await.is_err() {
+        return "full not-started".into();
+    }
+    let view = Arc::new(Mutex::new(BTreeMap::<NodeId, SocketAddr>::new()));
+    {
+        let view = view.clone();
+        let mut changes = n1.membership_changes();
+        tokio::spawn(async move {
+            while let Some(change) = changes.next().await {
+                let mut v = view.lock().unwrap();
+                for m in change.left.iter() {
+                    v.remove(&m.node_id);
+                }
+                for m in change.joined.iter() {
+                    v.insert(m.node_id, m.public_addr);
+                }
+            }
+        });
+    }
+    let hour = Duration::from_secs(3600);
+    let Ok(s1) = n1.add_extension(EventuallyConsistentStoreExtension::new(MemStore::default()).with_repair_interval(hour)).await else {
+        return "full not-started".into();
+    };
+    tokio::time::sleep(Duration::from_millis(1200)).await;
+    let first = view.lock().unwrap().get(&2).copied() == Some(a2);
+    n2.shutdown().await;
+    let Some(n2b) = connect(2, a2new, vec![a1.to_string()]).await else {
+        return "full not-started".into();
+    };
+    let Ok(s2) = n2b.add_extension(EventuallyConsistentStoreExtension::new(MemStore::default()).with_repair_interval(hour)).await else {
+        return "full not-started".into();
+    };
+    if n2b.wait_for_nodes([1], Duration::from_secs(30)).await.is_err() {
+        return "full not-started".into();
+    }
+    // the old incarnation is declared dead by node 1's failure detector (about 20 s); then let things settle
+    let stats = n1.statistics();
+    let deadline = Instant::now() + Duration::from_secs(120);
+    while stats.num_dead_members() == 0 && Instant::now() < deadline {
+        tokio::time::sleep(Duration::from_millis(200)).await;
+    }
+    let dead_seen = stats.num_dead_members() >= 1 && stats.num_live_members() == 2;
+    tokio::time::sleep(Duration::from_secs(4)).await;
+    let held = view.lock().unwrap().get(&2).copied();
+    let view_s = match held {
+        Some(a) if a == a2new => "new",
+        Some(a) if a == a2 => "old",
+        Some(_) => "other",
+        None => "none",
+    };
+    let (h1, h2) = (s1.handle_with_keyspace("fs"), s2.handle_with_keyspace("fs"));
+    let _ = h1.put(5, b"after".to_vec(), Consistency::None).await;
+    let delivered = arrives(&h2, 5, Duration::from_secs(6)).await;
+    n1.shutdown().await;
+    n2b.shutdown().await;
+    format!("full first={} dead_seen={} view={} delivered_to_new={}", first, dead_seen, view_s, delivered)
+}
+
 /// converge <seed>: three nodes with stores (repair every second); Consistency::None puts and deletes at different nodes; after a
 /// few seconds every node must return the same documents, per id the operation issued last.
 async fn converge(seed: u64) -> String {
@@ -164,6 +230,7 @@ impl Domain for FullDomain {
     fn op(&mut self, t: &[&str]) -> String {
         match t[0] {
             "leave" => runtime().block_on(leave()),
+            "rejoin" => runtime().block_on(rejoin()),
             "converge" => runtime().block_on(converge(p_u64(t[1]))),
             _ => "bad-op".into(),
         }
